@@ -9,15 +9,15 @@ from __future__ import annotations
 
 import numpy as np
 
-from .. import gens, rt, sel
+from .. import forms, gens, rt, sel
 from ..common import Skip, brief
 
 ID = "C01"
 CASES = {"quick": 4500, "thorough": 60000}
 FLOOR = {"quick": 3000, "thorough": 40000}
 FLOOR_COUNTERS = {
-    "quick": {"threshold_stops": 200, "warm_links": 1000, "fits": 4000, "estimators_with_a_past": 800, "small_unit_cases": 200},
-    "thorough": {"threshold_stops": 800, "warm_links": 4000, "fits": 30000, "estimators_with_a_past": 10000, "small_unit_cases": 3000},
+    "quick": {"configured_not_by_constructor": 1500, "non_default_containers": 1500, "integer_typed_inputs": 250, "threshold_stops": 200, "warm_links": 1000, "fits": 4000, "estimators_with_a_past": 800, "small_unit_cases": 200},
+    "thorough": {"configured_not_by_constructor": 20000, "non_default_containers": 20000, "integer_typed_inputs": 3500, "threshold_stops": 800, "warm_links": 4000, "fits": 30000, "estimators_with_a_past": 10000, "small_unit_cases": 3000},
 }
 RULE = (
     "case = (selector class x direction [9 variants, round-robin], matrix family, n_to_select form "
@@ -114,6 +114,13 @@ def gen(rng, tier, index):
             "n": int(rng.integers(lo, N + 1)),
             "thr": gens.pick(rng, (None, ("relative", 0.5), ("relative", 0.05), ("absolute", 1e-3 * unit**2))),
         }
+    if rng.random() < 0.12 and float(np.abs(X).max()) > 0:  # whole-number data (counts, grid indices) with an integer dtype
+        X = np.round(X / float(np.abs(X).max()) * 40.0)
+        spec["xint"] = gens.pick(rng, ("int64", "int32"))
+    # the same configuration and the same numbers through another public route / container
+    spec["how"] = gens.pick(rng, forms.CONFIGURE)
+    spec["xform"] = gens.pick(rng, forms.PRESENT)
+    spec["yform"] = gens.pick(rng, forms.PRESENT)
     return {
         "spec": spec,
         "X": X,
@@ -303,6 +310,12 @@ def post_fit_contract(j, est, spec, X, y, seq, evs, n_to_select, Z=None, expect_
 
 def run(case, j):
     spec, X, y = case["spec"], case["X"], case["y"]
+    if spec.get("how", "ctor") != "ctor":
+        j.note("configured_not_by_constructor")
+    if spec.get("xform", "C") != "C":
+        j.note("non_default_containers")
+    if spec.get("xint"):
+        j.note("integer_typed_inputs")
     est = sel.make(spec)
     tr = rt.GreedyTrace(est)
     if tr.missing:
